@@ -10,6 +10,12 @@
 //!     ring backend can sign with (fixed key files of /repo/test-data),
 //!     three signer entry points (sign_rrset, SortedRecords ->
 //!     sign_sorted_rrset_in, sign_sorted_zone_records);
+//!   * mixed-case names in RDATA: every ordered pair over a 27-name
+//!     mixed-case menu in every name field of every name-bearing type;
+//!   * multi-step signing histories: every sequence (to length 3) of
+//!     sign_sorted_rrset_in calls sharing ONE scratch buffer, and
+//!     sign_sorted_zone_records with every key list to length 3 (two
+//!     algorithms, repeated keys) over zones of one or two RRsets;
 //!   * every legitimate resolver-side transformation from a fixed menu
 //!     (all permutations, duplicate removal, owner / RDATA-name / signer-name
 //!     case changes, TTL decrement, wildcard expansion, round trip through an
@@ -432,6 +438,9 @@ fn octets_class(component: &str, ctxname: &str, spec: &TypeSpec, d: &str) -> Str
         format!("{base}|{d}")
     } else if spec.lib_unknown_listed && d == "rdata-names-not-lower-cased" {
         format!("{base}|RFC4034-6.2-listed-type-without-library-type|{d}")
+    } else if d == "other" && component == "signer" && ctxname.contains('#') {
+        // multi-step histories: the position in the history is the structure
+        format!("{base}|{ctxname}|other")
     } else if d == "other" && component == "signed_data" {
         format!("{base}|other|after={ctxname}")
     } else {
@@ -769,6 +778,40 @@ struct TypeSpec {
     values: Vec<Vec<F>>,
     /// in the RFC 4034 §6.2 list but parsed by the library as unknown data
     lib_unknown_listed: bool,
+    /// mixed-case name values (see `mixed_names`): values[0] with each name
+    /// field in turn replaced by every name of the mixed-case name menu
+    mixed: Vec<Vec<F>>,
+}
+
+/// The mixed-case name menu: first label = every string of length 2 over
+/// {a, A, b}, second label in {z, Z, y}. Every ordered pair of these is used,
+/// so all relations "first raw difference is case-only / real" x "a later
+/// octet differs for real / only in case / not at all" occur, in the first
+/// label and across labels.
+fn mixed_names() -> Vec<Vec<Vec<u8>>> {
+    let mut v = Vec::new();
+    for a in [b'a', b'A', b'b'] {
+        for b in [b'a', b'A', b'b'] {
+            for t in [b'z', b'Z', b'y'] {
+                v.push(vec![vec![a, b], vec![t]]);
+            }
+        }
+    }
+    v
+}
+
+fn mixed_values(template: &[F]) -> Vec<Vec<F>> {
+    let mut out = Vec::new();
+    for (i, f) in template.iter().enumerate() {
+        if matches!(f, F::N(_)) {
+            for n in mixed_names() {
+                let mut v = template.to_vec();
+                v[i] = F::N(n);
+                out.push(v);
+            }
+        }
+    }
+    out
 }
 
 fn fb(b: &[u8]) -> F {
@@ -800,7 +843,8 @@ const NM: [&str; 4] = ["b.z", "B.Z", "ab.z", "ns1.z"];
 fn type_menu(quick: bool) -> Vec<TypeSpec> {
     let mut t: Vec<TypeSpec> = Vec::new();
     let mut add = |rtype: u16, mn: &'static str, layout: Vec<L>, values: Vec<Vec<F>>, unk: bool| {
-        t.push(TypeSpec { rtype, mn, layout, values, lib_unknown_listed: unk });
+        let mixed = mixed_values(&values[0]);
+        t.push(TypeSpec { rtype, mn, layout, values, lib_unknown_listed: unk, mixed });
     };
     let single = |_: ()| -> Vec<Vec<F>> { NM.iter().map(|n| vec![fnm(n)]).collect() };
     let pref_name = |_: ()| -> Vec<Vec<F>> {
@@ -1094,12 +1138,14 @@ struct Case {
     /// 1 = sign_rrset, 2 = SortedRecords + sign_sorted_rrset_in,
     /// 3 = sign_sorted_zone_records
     entry: u8,
+    /// seq indexes the mixed-case name values of the type instead of `values`
+    mixed: bool,
 }
 
 impl Case {
     fn json(&self, env: &Env) -> Value {
         json!({"part": "sign", "tier": if env.quick { "quick" } else { "thorough" }, "type": env.types[self.ti].mn, "ti": self.ti, "seq": self.seq, "oi": self.oi, "oc": self.oc, "ttl": self.ttl,
-               "tm": self.tm, "si": self.si, "class": self.class, "ki": self.ki, "alg": env.keys[self.ki].alg, "entry": self.entry,
+               "tm": self.tm, "si": self.si, "class": self.class, "ki": self.ki, "alg": env.keys[self.ki].alg, "entry": self.entry, "mixed": self.mixed,
                "owner": OWNERS[self.oi], "inception": env.times[self.tm].0, "expiration": env.times[self.tm].1})
     }
     fn from_json(v: &Value) -> Case {
@@ -1115,6 +1161,7 @@ impl Case {
             class: u("class") as u16,
             ki: u("ki"),
             entry: u("entry") as u8,
+            mixed: v["mixed"].as_bool().unwrap_or(false),
         }
     }
     fn hash(&self) -> u64 {
@@ -1130,7 +1177,7 @@ impl Case {
                 rtype: spec.rtype,
                 class: self.class,
                 ttl: self.ttl,
-                fields: spec.values[vi].clone(),
+                fields: if self.mixed { spec.mixed[vi].clone() } else { spec.values[vi].clone() },
             })
             .collect()
     }
@@ -1172,6 +1219,23 @@ struct Signed {
     refs: Vec<Vec<u8>>,
 }
 
+/// (owner labels, type, class, ttl, RDATA) of every record of a collection
+type Pubd = Vec<(Vec<Vec<u8>>, u16, u16, u32, Vec<u8>)>;
+
+/// What the signer pipeline publishes next to the RRSIG: for sign_rrset the
+/// records as given; for the SortedRecords pipelines the contents of the
+/// collection (it removes what it considers duplicates).
+fn published_of(sorted: &SortedRecords<LName, ZData>) -> Pubd {
+    sorted
+        .iter()
+        .map(|r| {
+            let mut rd = Vec::new();
+            r.data().compose_rdata(&mut rd).expect("vec");
+            (name_labels(r.owner()), r.rtype().to_int(), r.class().to_int(), r.ttl().as_secs(), rd)
+        })
+        .collect()
+}
+
 /// Run the signer for one case and check the RRSIG. Returns the signature
 /// when one was made and it passed the independent checks.
 fn sign_case(env: &Env, c: &Case, l: &mut Local) -> Option<Signed> {
@@ -1200,20 +1264,6 @@ fn sign_case(env: &Env, c: &Case, l: &mut Local) -> Option<Signed> {
         }
     };
     let apex = lname(&labels("z"));
-    // what the signer pipeline publishes next to the RRSIG: for sign_rrset the
-    // records as given; for the SortedRecords pipelines the contents of the
-    // collection (it removes what it considers duplicates)
-    let published_of = |sorted: &SortedRecords<LName, ZData>| -> Vec<(Vec<Vec<u8>>, u16, u32, Vec<u8>)> {
-        sorted
-            .iter()
-            .map(|r| {
-                let mut rd = Vec::new();
-                r.data().compose_rdata(&mut rd).expect("vec");
-                (name_labels(r.owner()), r.class().to_int(), r.ttl().as_secs(), rd)
-            })
-            .collect()
-    };
-    type Pubd = Vec<(Vec<Vec<u8>>, u16, u32, Vec<u8>)>;
     let res = guard(|| -> Result<(Option<Record<LName, LSig>>, Option<Pubd>), String> {
         let (i, e) = (Timestamp::from(inc), Timestamp::from(exp));
         match c.entry {
@@ -1281,7 +1331,7 @@ fn sign_case(env: &Env, c: &Case, l: &mut Local) -> Option<Signed> {
         None => rrs,
         Some(p) => p
             .into_iter()
-            .map(|(owner, class, ttl, rd)| RawRR { owner, rtype: spec.rtype, class, ttl, fields: split_rdata(&spec.layout, &rd).expect("library RDATA follows the layout") })
+            .map(|(owner, _, class, ttl, rd)| RawRR { owner, rtype: spec.rtype, class, ttl, fields: split_rdata(&spec.layout, &rd).expect("library RDATA follows the layout") })
             .collect(),
     };
     {
@@ -1308,6 +1358,29 @@ fn sign_case(env: &Env, c: &Case, l: &mut Local) -> Option<Signed> {
     if spec.rtype == 46 {
         l.c("signer:rrsig-rrset-signed");
     }
+    let x = Expect { en, spec, key, si: c.si, inc, exp, ttl: c.ttl, class: c.class, hash: c.hash() };
+    let cj = c.json(env);
+    judge_rrsig(env, &x, rrs, &rec, &cj, l)
+}
+
+/// What an RRSIG is expected to look like.
+struct Expect<'a> {
+    /// signer entry point (and position in a multi-step history)
+    en: &'a str,
+    spec: &'a TypeSpec,
+    key: &'a KeyMat,
+    si: usize,
+    inc: u32,
+    exp: u32,
+    ttl: u32,
+    class: u16,
+    hash: u64,
+}
+
+/// Check one RRSIG record made by the signer for the published RRset `rrs`:
+/// every field, and the signature over the independent octets with ring.
+fn judge_rrsig(env: &Env, x: &Expect, rrs: Vec<RawRR>, rec: &Record<LName, LSig>, cj: &Value, l: &mut Local) -> Option<Signed> {
+    let (en, spec, key, inc, exp) = (x.en, x.spec, x.key, x.inc, x.exp);
     let sig = sigf_of(rec.data());
     // ---- RRSIG RR and fields (RFC 4035 §2.2, RFC 4034 §3.1)
     let want_labels = {
@@ -1318,10 +1391,10 @@ fn sign_case(env: &Env, c: &Case, l: &mut Local) -> Option<Signed> {
     if lower_labels(&name_labels(rec.owner())) != lower_labels(&rrs[0].owner) {
         bad.push(("rr-owner", format!("{} vs {}", rec.owner(), name_text(&rrs[0].owner))));
     }
-    if rec.class().to_int() != c.class {
+    if rec.class().to_int() != x.class {
         bad.push(("rr-class", format!("{}", rec.class())));
     }
-    if rec.ttl().as_secs() != c.ttl {
+    if rec.ttl().as_secs() != x.ttl {
         bad.push(("rr-ttl", format!("{}", rec.ttl().as_secs())));
     }
     if sig.tc != spec.rtype {
@@ -1333,7 +1406,7 @@ fn sign_case(env: &Env, c: &Case, l: &mut Local) -> Option<Signed> {
     if sig.labels != want_labels {
         bad.push(("labels", format!("{} expected {want_labels}", sig.labels)));
     }
-    if sig.ottl != c.ttl {
+    if sig.ottl != x.ttl {
         bad.push(("original-ttl", format!("{}", sig.ottl)));
     }
     if sig.exp != exp || sig.inc != inc {
@@ -1342,7 +1415,7 @@ fn sign_case(env: &Env, c: &Case, l: &mut Local) -> Option<Signed> {
     if sig.tag != keytag_app_b(&key.rdata) {
         bad.push(("key-tag", format!("{} expected {}", sig.tag, keytag_app_b(&key.rdata))));
     }
-    if lower_labels(&sig.signer) != lower_labels(&labels(SIGNER_NAMES[c.si])) {
+    if lower_labels(&sig.signer) != lower_labels(&labels(SIGNER_NAMES[x.si])) {
         bad.push(("signer-name", name_text(&sig.signer)));
     }
     if sig.sig.len() != sig_len(key.alg) {
@@ -1352,7 +1425,7 @@ fn sign_case(env: &Env, c: &Case, l: &mut Local) -> Option<Signed> {
         env.ctx.violation(
             &format!("C12|{en}|rrsig-field|{f}"),
             &format!("RRSIG made for {} at {} has wrong {f}: {w}", spec.mn, name_text(&rrs[0].owner)),
-            c.json(env),
+            cj.clone(),
         );
     }
     if !bad.is_empty() {
@@ -1379,14 +1452,14 @@ fn sign_case(env: &Env, c: &Case, l: &mut Local) -> Option<Signed> {
                 name_text(&rrs[0].owner),
                 hex(&refs[0])
             ),
-            c.json(env),
+            cj.clone(),
         );
         return None;
     }
     if refs.len() > 1 {
         l.c(if good[0] == refs[0] { "nsec:signed-per-RFC6840(case kept)" } else { "nsec:signed-per-RFC4034(lower-cased)" });
     }
-    env.stats.distinct(c.hash());
+    env.stats.distinct(x.hash);
     // What a validator is handed is a set: RFC 2181 5 / RFC 4034 6.3 allow a
     // validator to treat duplicate RRs as a protocol error, so they are not a
     // legitimate thing to deliver (the library's own validator drops them
@@ -1553,10 +1626,12 @@ fn lib_validate(rrs: &[RawRR], sig: &SigF, form: Form, dnskey: &Dnskey<Bytes>) -
     }
 }
 
-fn check_transforms(env: &Env, c: &Case, s: &Signed, l: &mut Local) {
-    let spec = &env.types[c.ti];
-    let key = &env.keys[c.ki];
+fn check_transforms(env: &Env, spec: &TypeSpec, key: &KeyMat, cj: &Value, s: &Signed, full: bool, l: &mut Local) {
     for (label, rrs_t, sig_t, form) in transforms(s) {
+        // the multi-step histories use a reduced transformation menu
+        if !full && !matches!(label.as_str(), "identity" | "compressed-reversed" | "combined") {
+            continue;
+        }
         l.evals += 1;
         l.c(&format!("transform:{label}"));
         // harness self-check: a legitimate transformation does not change the
@@ -1569,7 +1644,7 @@ fn check_transforms(env: &Env, c: &Case, s: &Signed, l: &mut Local) {
                 env.ctx.violation(
                     &format!("C12|validate|panic|{}", panic_class(&p)),
                     &format!("validation primitives panicked after '{label}': {p}"),
-                    json!({"part": "transform", "case": c.json(env), "transform": label}),
+                    json!({"part": "transform", "case": cj.clone(), "transform": label}),
                 );
                 continue;
             }
@@ -1577,13 +1652,13 @@ fn check_transforms(env: &Env, c: &Case, s: &Signed, l: &mut Local) {
                 env.ctx.violation(
                     &format!("C12|validate|{label}|form={form:?}|records-unreadable"),
                     &format!("library could not read the transformed records: {e}"),
-                    json!({"part": "transform", "case": c.json(env), "transform": label}),
+                    json!({"part": "transform", "case": cj.clone(), "transform": label}),
                 );
                 continue;
             }
             Ok(Ok(o)) => o,
         };
-        let replay = || json!({"part": "transform", "case": c.json(env), "transform": label, "rrs": rrs_t.iter().map(|r| r.json()).collect::<Vec<_>>(), "rrsig": sig_t.json()});
+        let replay = || json!({"part": "transform", "case": cj.clone(), "transform": label, "rrs": rrs_t.iter().map(|r| r.json()).collect::<Vec<_>>(), "rrsig": sig_t.json()});
         let octets_ok = s.refs.contains(&out.octets);
         if !octets_ok {
             let d = diagnose(&sig_t, &rrs_t, open_lower, &|o| o == &out.octets[..]);
@@ -1637,6 +1712,188 @@ fn check_transforms(env: &Env, c: &Case, s: &Signed, l: &mut Local) {
         }
         l.c(if want.is_some() { "wce:some" } else { "wce:none" });
     }
+}
+
+// ===================================================================
+// multi-step signing histories (shared scratch buffer, several keys)
+// ===================================================================
+
+#[derive(Clone, Debug)]
+struct Multi {
+    /// type, sequence, owner, TTL, period, signer name, class (ki/entry unused)
+    base: Case,
+    /// 4 = successive sign_sorted_rrset_in calls sharing ONE scratch Vec;
+    /// 5 = one sign_sorted_zone_records call with the keys of `steps`
+    mode: u8,
+    /// (key index, sign the OTHER RRset `o.z TXT` instead of the case's [mode 4])
+    steps: Vec<(usize, bool)>,
+    /// mode 5: the zone also holds the other RRset
+    zone_two: bool,
+}
+
+impl Multi {
+    fn json(&self, env: &Env) -> Value {
+        json!({"part": "multi", "case": self.base.json(env), "mode": self.mode, "zone_two": self.zone_two,
+               "steps": self.steps.iter().map(|&(ki, o)| json!([env.keys[ki].alg, o])).collect::<Vec<_>>()})
+    }
+}
+
+fn multi_case(env: &Env, m: &Multi, l: &mut Local) {
+    let c = &m.base;
+    let spec = &env.types[c.ti];
+    let ospec = env.types.iter().find(|t| t.rtype == 16).expect("TXT in the menu");
+    let (inc, exp, _) = env.times[c.tm];
+    let main = c.rrs(env);
+    let other = vec![RawRR { owner: labels("o.z"), rtype: 16, class: c.class, ttl: c.ttl, fields: ospec.values[0].clone() }];
+    let cj = m.json(env);
+    l.evals += 1;
+    let (zm, zo) = match guard(|| (lib_zrecs(&build_msg(&main, false).bytes), lib_zrecs(&build_msg(&other, false).bytes))) {
+        Ok((Ok(a), Ok(b))) => (a, b),
+        _ => {
+            env.ctx.violation(&format!("C12|input|type={}|library-cannot-read-generated-record", spec.mn), "multi-step: generated records unreadable", cj);
+            return;
+        }
+    };
+    let (i, e) = (Timestamp::from(inc), Timestamp::from(exp));
+    let apex = lname(&labels("z"));
+    let to_rrs = |sp: &TypeSpec, p: &Pubd, owner: &[Vec<u8>]| -> Vec<RawRR> {
+        p.iter()
+            .filter(|(o, t, ..)| *t == sp.rtype && lower_labels(o) == lower_labels(owner))
+            .map(|(o, t, class, ttl, rd)| RawRR { owner: o.clone(), rtype: *t, class: *class, ttl: *ttl, fields: split_rdata(&sp.layout, rd).expect("library RDATA follows the layout") })
+            .collect()
+    };
+    let judge = |en: &str, sp: &TypeSpec, ki: usize, rrs: Vec<RawRR>, rec: &Record<LName, LSig>, tag: String, l: &mut Local| {
+        l.evals += 1;
+        let x = Expect { en, spec: sp, key: &env.keys[ki], si: c.si, inc, exp, ttl: c.ttl, class: c.class, hash: fnv(format!("{m:?}|{tag}").as_bytes()) };
+        if let Some(s) = judge_rrsig(env, &x, rrs, rec, &cj, l) {
+            l.c(&format!("multi:verified:{en}"));
+            check_transforms(env, sp, &env.keys[ki], &cj, &s, false, l);
+        }
+    };
+    if m.mode == 4 {
+        let res = guard(|| -> Result<(Vec<Result<Record<LName, LSig>, String>>, Pubd, Pubd), String> {
+            let sm: SortedRecords<LName, ZData> = SortedRecords::from(zm.clone());
+            let so: SortedRecords<LName, ZData> = SortedRecords::from(zo.clone());
+            let setm: Vec<_> = sm.rrsets().collect();
+            let seto: Vec<_> = so.rrsets().collect();
+            if setm.len() != 1 || seto.len() != 1 {
+                return Err("SortedRecords split one RRset".into());
+            }
+            // ONE scratch buffer for the whole history, as the documentation of
+            // sign_sorted_rrset_in invites
+            let mut scratch = Vec::new();
+            let mut out = Vec::new();
+            for &(ki, oth) in &m.steps {
+                let skey = &env.keys[ki].signers[c.si];
+                let set = if oth { &seto[0] } else { &setm[0] };
+                out.push(sign_sorted_rrset_in(skey, set, i, e, &mut scratch).map_err(|e| format!("{e:?}")));
+            }
+            Ok((out, published_of(&sm), published_of(&so)))
+        });
+        let (recs, pm, po) = match res {
+            Err(p) => {
+                env.ctx.violation(&format!("C12|sign_sorted_rrset_in|reused-scratch|panic|{}", panic_class(&p)), &format!("signer panicked: {p}"), cj);
+                return;
+            }
+            Ok(Err(e)) => {
+                env.ctx.violation("C12|sign_sorted_rrset_in|reused-scratch|setup", &e, cj);
+                return;
+            }
+            Ok(Ok(v)) => v,
+        };
+        for (j, (r, &(ki, oth))) in recs.iter().zip(&m.steps).enumerate() {
+            let pos = if j == 0 { "call#1" } else { "call#2+" };
+            let en = format!("sign_sorted_rrset_in|reused-scratch|{pos}");
+            match r {
+                Err(e) => {
+                    let kind = e.split('(').next().unwrap_or("").to_string();
+                    env.ctx.violation(&format!("C12|{en}|sign-error|{kind}"), &format!("step {j}: signer returned {e}"), cj.clone());
+                }
+                Ok(rec) => {
+                    let (sp, rrs) = if oth { (ospec, to_rrs(ospec, &po, &other[0].owner)) } else { (spec, to_rrs(spec, &pm, &main[0].owner)) };
+                    judge(&en, sp, ki, rrs, rec, format!("{j}"), l);
+                }
+            }
+        }
+    } else {
+        let res = guard(|| -> Result<(Vec<Record<LName, LSig>>, Pubd), String> {
+            let mut all = zm.clone();
+            if m.zone_two {
+                all.extend(zo.clone());
+            }
+            let sorted: SortedRecords<LName, ZData> = SortedRecords::from(all);
+            let keys: Vec<&SKey> = m.steps.iter().map(|&(ki, _)| &env.keys[ki].signers[c.si]).collect();
+            let cfg = GenerateRrsigConfig::new(i, e);
+            let v = sign_sorted_zone_records(&apex, sorted.owner_rrs(), &keys, &cfg).map_err(|e| format!("{e:?}"))?;
+            Ok((v, published_of(&sorted)))
+        });
+        let (sigs, p) = match res {
+            Err(pn) => {
+                env.ctx.violation(&format!("C12|sign_sorted_zone_records|multi-key|panic|{}", panic_class(&pn)), &format!("signer panicked: {pn}"), cj);
+                return;
+            }
+            Ok(Err(e)) => {
+                let kind = e.split('(').next().unwrap_or("").to_string();
+                env.ctx.violation(&format!("C12|sign_sorted_zone_records|multi-key|sign-error|{kind}"), &format!("signer returned {e}"), cj);
+                return;
+            }
+            Ok(Ok(v)) => v,
+        };
+        let mut claimed = vec![false; sigs.len()];
+        let mut groups: Vec<(&TypeSpec, Vec<RawRR>)> = vec![(spec, to_rrs(spec, &p, &main[0].owner))];
+        if m.zone_two {
+            groups.push((ospec, to_rrs(ospec, &p, &other[0].owner)));
+        }
+        for (gi, (sp, rrs)) in groups.into_iter().enumerate() {
+            let mine: Vec<usize> = (0..sigs.len())
+                .filter(|&k| sigs[k].data().type_covered().to_int() == sp.rtype && lower_labels(&name_labels(sigs[k].owner())) == lower_labels(&rrs[0].owner))
+                .collect();
+            if mine.is_empty() {
+                l.c("multi:zone-walk-skipped-rrset");
+                continue;
+            }
+            let mut used = vec![false; m.steps.len()];
+            for k in mine {
+                claimed[k] = true;
+                let alg = sigs[k].data().algorithm().to_int();
+                match (0..m.steps.len()).find(|&j| !used[j] && env.keys[m.steps[j].0].alg == alg) {
+                    None => {
+                        env.ctx.violation(
+                            "C12|sign_sorted_zone_records|multi-key|RRSIG-for-no-given-key",
+                            &format!("an RRSIG with algorithm {alg} for {} was returned that matches none of the (remaining) signing keys", sp.mn),
+                            cj.clone(),
+                        );
+                    }
+                    Some(j) => {
+                        used[j] = true;
+                        let en = format!("sign_sorted_zone_records|{}", if j == 0 { "key#1" } else { "key#2+" });
+                        judge(&en, sp, m.steps[j].0, rrs.clone(), &sigs[k], format!("{gi}|{j}"), l);
+                    }
+                }
+            }
+            if used.iter().any(|u| !u) {
+                env.ctx.violation(
+                    "C12|sign_sorted_zone_records|multi-key|no-RRSIG-for-a-given-key",
+                    &format!("{} keys were given but only {} RRSIGs cover {} at {}", m.steps.len(), used.iter().filter(|u| **u).count(), sp.mn, name_text(&rrs[0].owner)),
+                    cj.clone(),
+                );
+            }
+        }
+        if claimed.iter().any(|c| !c) {
+            env.ctx.violation("C12|sign_sorted_zone_records|multi-key|RRSIG-for-no-RRset-of-the-zone", "an RRSIG was returned that covers none of the zone's RRsets", cj.clone());
+        }
+    }
+}
+
+fn run_multi(env: &Env, cases: &[Multi]) -> Local {
+    cases
+        .par_iter()
+        .with_max_len(8)
+        .fold(Local::default, |mut l, c| {
+            multi_case(env, c, &mut l);
+            l
+        })
+        .reduce(Local::default, Local::merge)
 }
 
 // ===================================================================
@@ -2095,7 +2352,7 @@ fn sign_and_transform(env: &Env, c: &Case, l: &mut Local) {
             println!("signed: {}", s.sig.json());
             println!("reference signed octets: {}", hex(&s.refs[0]));
         }
-        check_transforms(env, c, &s, l);
+        check_transforms(env, &env.types[c.ti], &env.keys[c.ki], &c.json(env), &s, true, l);
     }
 }
 
@@ -2106,7 +2363,9 @@ fn main() {
         let text = std::fs::read_to_string(&path).expect("replay file");
         let v: Value = serde_json::from_str(&text).expect("replay json");
         let case = &v["case"];
-        let inner = if case["part"] == "sign" { case.clone() } else { case["case"].clone() };
+        let node = if matches!(case["part"].as_str(), Some("transform") | Some("fault")) { case["case"].clone() } else { case.clone() };
+        let is_multi = node["part"] == "multi";
+        let inner = if is_multi { node["case"].clone() } else { node.clone() };
         let tier_quick = inner["tier"].as_str().map(|t| t == "quick").unwrap_or(ctx.quick());
         let (mut env, all_keys) = build_env(ctx.clone(), tier_quick);
         env.verbose = true;
@@ -2122,7 +2381,21 @@ fn main() {
                 for r in c.rrs(&env) {
                     println!("  rr: {}", r.json());
                 }
-                if part == "fault" {
+                if is_multi {
+                    let m = Multi {
+                        base: c.clone(),
+                        mode: node["mode"].as_u64().unwrap_or(4) as u8,
+                        zone_two: node["zone_two"].as_bool().unwrap_or(false),
+                        steps: node["steps"]
+                            .as_array()
+                            .unwrap()
+                            .iter()
+                            .map(|s| (env.keys.iter().position(|k| Some(k.alg as u64) == s[0].as_u64()).expect("algorithm in this tier's menu"), s[1].as_bool().unwrap_or(false)))
+                            .collect(),
+                    };
+                    println!("multi-step history: {}", m.json(&env));
+                    multi_case(&env, &m, &mut l);
+                } else if part == "fault" {
                     fault_case(&env, &c, &mut l);
                 } else {
                     sign_and_transform(&env, &c, &mut l);
@@ -2165,7 +2438,7 @@ fn main() {
                             if entry == 3 && ki != nkeys - 1 {
                                 continue;
                             }
-                            p1.push(Case { ti, seq: seq.clone(), oi, oc, ttl: 3600, tm: 0, si: 0, class: 1, ki, entry });
+                            p1.push(Case { ti, seq: seq.clone(), oi, oc, ttl: 3600, tm: 0, si: 0, class: 1, ki, entry, mixed: false });
                         }
                     }
                 }
@@ -2185,7 +2458,7 @@ fn main() {
                             for &class in &classes {
                                 for ki in 0..nkeys {
                                     for entry in [1u8, 2] {
-                                        let c = Case { ti, seq: seq.clone(), oi, oc: 0, ttl, tm, si, class, ki, entry };
+                                        let c = Case { ti, seq: seq.clone(), oi, oc: 0, ttl, tm, si, class, ki, entry, mixed: false };
                                         // already part of P1
                                         if (ttl == 3600 && tm == 0 && si == 0 && class == 1) || (class != 1 && tm != 0) {
                                             continue;
@@ -2213,7 +2486,83 @@ fn main() {
         for seq in &freps {
             for oi in 0..OWNERS.len() {
                 for ki in 0..nkeys {
-                    p3.push(Case { ti, seq: seq.clone(), oi, oc: 0, ttl: 3600, tm: 0, si: 0, class: 1, ki, entry: 2 });
+                    p3.push(Case { ti, seq: seq.clone(), oi, oc: 0, ttl: 3600, tm: 0, si: 0, class: 1, ki, entry: 2, mixed: false });
+                }
+            }
+        }
+    }
+    // P4: mixed-case names in RDATA: every ordered pair of the mixed-case
+    // values of every name-bearing type, as a two-record RRset at the apex
+    let fast: Vec<usize> = (0..nkeys).filter(|&ki| matches!(env.keys[ki].alg, 13 | 15)).collect();
+    let mut p4: Vec<Case> = Vec::new();
+    for ti in 0..env.types.len() {
+        let n = env.types[ti].mixed.len();
+        if env.types[ti].rtype == 46 {
+            continue;
+        }
+        for a in 0..n {
+            for b in 0..n {
+                for &ki in &fast {
+                    if quick && env.keys[ki].alg != 15 {
+                        continue;
+                    }
+                    for entry in [1u8, 2] {
+                        p4.push(Case { ti, seq: vec![a, b], oi: 0, oc: 0, ttl: 3600, tm: 0, si: 0, class: 1, ki, entry, mixed: true });
+                    }
+                }
+            }
+        }
+    }
+    // P5: multi-step signing histories
+    //  mode 4: every sequence of sign_sorted_rrset_in calls (key x which of
+    //          two RRsets) to length 3 sharing one scratch Vec;
+    //  mode 5: sign_sorted_zone_records with every key list to length 3
+    //          (repetition allowed), zone of one or two RRsets
+    let mut sym4: Vec<(usize, bool)> = Vec::new();
+    for ki in 0..nkeys {
+        for o in [false, true] {
+            sym4.push((ki, o));
+        }
+    }
+    let hist = |alpha: &[(usize, bool)], lens: std::ops::RangeInclusive<usize>| -> Vec<Vec<(usize, bool)>> {
+        let mut out = Vec::new();
+        let mut buf = Vec::new();
+        for n in lens {
+            for i in 0..pow(alpha.len(), n) {
+                nth_string(alpha, n, i, &mut buf);
+                out.push(buf.clone());
+            }
+        }
+        out
+    };
+    let sym4_fast: Vec<(usize, bool)> = sym4.iter().cloned().filter(|s| fast.contains(&s.0)).collect();
+    let sym5: Vec<(usize, bool)> = (0..nkeys).map(|k| (k, false)).collect();
+    let sym5_fast: Vec<(usize, bool)> = fast.iter().map(|&k| (k, false)).collect();
+    // slow algorithms (RSA, P-384) take part in histories to length 2
+    let (h4, h5) = if quick {
+        (hist(&sym4, 1..=3), hist(&sym5, 1..=3))
+    } else {
+        let mut a = hist(&sym4, 1..=2);
+        a.extend(hist(&sym4_fast, 3..=3));
+        let mut b = hist(&sym5, 1..=2);
+        b.extend(hist(&sym5_fast, 3..=3));
+        (a, b)
+    };
+    let mut p5: Vec<Multi> = Vec::new();
+    for ti in 0..env.types.len() {
+        if env.types[ti].rtype == 46 {
+            continue;
+        }
+        let base = |oi: usize| Case { ti, seq: vec![2, 0], oi, oc: 0, ttl: 3600, tm: 0, si: 0, class: 1, ki: 0, entry: 0, mixed: false };
+        for oi in [0usize, 3] {
+            for h in &h4 {
+                p5.push(Multi { base: base(oi), mode: 4, steps: h.clone(), zone_two: false });
+            }
+        }
+        for oi in 0..OWNERS.len() {
+            for h in &h5 {
+                for zone_two in [false, true] {
+                    p5.push(Multi { base: base(oi), mode: 5, steps: h.clone(), zone_two });
                 }
             }
         }
@@ -2228,8 +2577,12 @@ fn main() {
     eprintln!("P2 done: {} cases, {} evaluations, {:.1}s", p2.len(), l2.evals, t0.elapsed().as_secs_f64());
     let l3 = run_all(&env, &p3, fault_case);
     eprintln!("P3 done: {} cases, {} evaluations, {:.1}s", p3.len(), l3.evals, t0.elapsed().as_secs_f64());
-    let (e1, e2, e3) = (l1.evals, l2.evals, l3.evals);
-    let total = total.merge(l1).merge(l2).merge(l3);
+    let l4 = run_all(&env, &p4, sign_and_transform);
+    eprintln!("P4 done: {} cases, {} evaluations, {:.1}s", p4.len(), l4.evals, t0.elapsed().as_secs_f64());
+    let l5 = run_multi(&env, &p5);
+    eprintln!("P5 done: {} histories, {} evaluations, {:.1}s", p5.len(), l5.evals, t0.elapsed().as_secs_f64());
+    let (e1, e2, e3, e4, e5) = (l1.evals, l2.evals, l3.evals, l4.evals, l5.evals);
+    let total = total.merge(l1).merge(l2).merge(l3).merge(l4).merge(l5);
     let counters = &total.counts;
     let sum = |p: &str| -> u64 { counters.iter().filter(|(k, _)| k.contains(p)).map(|(_, v)| *v).sum() };
     ctx.finish(
@@ -2248,7 +2601,12 @@ fn main() {
                 "P1_records_product_cases": p1.len(),
                 "P2_envelope_product_cases": p2.len(),
                 "P3_fault_base_cases": p3.len(),
-                "P1_evaluations": e1, "P2_evaluations": e2, "P3_evaluations(bit flips + base)": e3,
+                "P4_mixed_case_rdata_name_pair_cases": p4.len(),
+                "P4_mixed_case_names": mixed_names().iter().map(|n| name_text(n)).collect::<Vec<_>>(),
+                "P5_multi_step_histories": p5.len(),
+                "P5_reused_scratch_call_sequences_per_base": h4.len(),
+                "P5_zone_key_lists": h5.len(),
+                "P1_evaluations": e1, "P2_evaluations": e2, "P3_evaluations(bit flips + base)": e3, "P4_evaluations": e4, "P5_evaluations": e5,
             },
             "signed": sum("signer:signed:"),
             "verified_after_legit_transform": sum("verify:ok-after-legit-transform"),
@@ -2263,6 +2621,8 @@ fn main() {
             "keys: only the fixed key files of /repo/test-data/dnssec-keys (one key per algorithm); signing algorithms limited to what the ring backend imports (8, 10, 13, 14, 15)",
             "P1 (all sequences of 1..3 records x owners x owner case x entry points, with algorithms 13 and 15; sequences of 1..2 records with every algorithm) is run at TTL 3600 / first validity period / signer 'z.' / class IN; P2 crosses TTL, validity period, signer-name case (and class CH at the first validity period) with three representative sequences per type; sign_sorted_zone_records (entry 3) is run with the last algorithm of the menu only",
             "fault enumeration bases: duplicate-free sequences [v0], [v2,v0] (and [v3,v0,v2] thorough), lower-case owners; flips are single-bit; DNSKEY flags/protocol flips are recorded but not judged (not key material, not read by the primitives)",
+            "P4: for every type with a domain name in its RDATA, every ordered pair over 27 mixed-case names (first label {a,A,b}^2, second label z/Z/y) put into each name field in turn, as a two-record RRset at the apex, through sign_rrset and the SortedRecords pipeline (algorithm 15; thorough also 13)",
+            "P5: per type, RRset [v2,v0]: (mode 4) every sequence of sign_sorted_rrset_in calls over (key x {this RRset, o.z TXT}) to length 3 sharing one scratch Vec, owners z and *.a.z; (mode 5) sign_sorted_zone_records with every key list to length 3 (repetition allowed) on a zone of one or two RRsets, all owners; in thorough the slow algorithms (8, 10, 14) take part in histories/key lists to length 2 only; every RRSIG is checked field by field, with ring over the independent octets, and through a reduced transformation menu (identity, compressed-reversed, combined)",
             "NSEC: RFC 4034 6.2 (lower-case next name) and RFC 6840 5.1 (keep case) are both accepted",
             "a record TTL above the original TTL is not a covered-field alteration; such flips are expected to verify like any other TTL change",
         ],
